@@ -10,7 +10,7 @@ CLAIMED = {
          "Origins/RP IDs come from unambiguously valid pairs, so no verdict depends on the C01 predicate." + TRUST,
          SIM + "seeded ceremony histories, independent RP verifier + store-seam history oracle", "DESIGN.md §6 C02"),
  "C03": ("exploration",
-         "Seeded interleaved registration/authentication histories over several RPs, users and allow lists on the contract-conforming reference store (bare and under every lock wrapper; the shipped single-slot store in 1 run of 8), fault-free and under faults/concurrency; each successful assertion is verified (ECDSA over authData||clientDataHash under the key the simulated RP holds for the returned id, client data, rpIdHash, no AT, id/rawId, user handle) and the no-eligible-credential outcome is checked against a reference model.",
+         "Seeded interleaved registration/authentication histories over several RPs, users and allow lists on the contract-conforming reference store (bare and under every lock wrapper; the shipped single-slot store in 1 run of 8, the shipped map store in 1 of 10 with the clauses its listed findings do not touch, a store with an item type of its own and unconvertible entries in 1 strict run of 10), fault-free and under faults/concurrency; each successful assertion is verified (ECDSA over authData||clientDataHash under the key the simulated RP holds for the returned id, client data, rpIdHash, no AT, id/rawId, user handle) and the no-eligible-credential outcome is checked against a reference model.",
          "The store honours the documented lookup contract (C05 owns the shipped stores)." + TRUST,
          SIM + "seeded ceremony histories, RP account database + signature verification, reference model for eligibility", "DESIGN.md §6 C03"),
  "C04": ("exploration",
@@ -22,12 +22,12 @@ CLAIMED = {
          "The reference store is the executable statement of the documented lookup contract." + TRUST,
          SIM + "seeded ceremony histories on reference and shipped stores, contract comparison at the store seam", "DESIGN.md §6 C05"),
  "C06": ("exploration",
-         "Boundary monitor over every value returned in simulated ceremony runs (successes and the error values produced by injected faults, CTAP2/WebAuthn/U2F/getInfo, Debug of stored passkeys): each rendering (CBOR, JSON, Debug, nested byte strings) is searched for every stored secret as raw bytes, hex, decimal list, base64 and base64url. Histories include requests repeated after a refused store write, U2F re-registrations and hmac-secret-mc inputs; both tiers run two builds of the simulator: the library's default features and its public `testable` feature (which changes derives on the stored-credential types).",
+         "Boundary monitor over every value returned in simulated ceremony runs (successes and the error values produced by injected faults, CTAP2/WebAuthn/U2F/getInfo, Debug of stored passkeys): each rendering (CBOR, JSON, Debug, nested byte strings) is searched for every stored secret as raw bytes, hex, decimal list, base64 and base64url (Debug in both formatter modes). Histories include requests repeated after a refused store write, U2F re-registrations and hmac-secret-mc inputs; both tiers run two builds of the simulator: the library's default features and its public `testable` feature (which changes derives on the stored-credential types).",
          "Only whole secrets are searched for." + TRUST,
          SIM + "seeded ceremony histories with injected faults, output monitor against secrets read back from the store seam", "DESIGN.md §6 C06"),
  "C07": ("fault_enumeration",
          "Systematic single-fault sweep inside a deterministic simulation: for each seeded world and target ceremony, one run per fallible store call failing with a status byte and one run per cancellation point (every poll count 0..K), plus seeded multi-fault combinations and the same faults under a second concurrent actor; oracle over the seam event history and deep store snapshots. Evidence of absence within the explored bounds, not proof.",
-         "Store errors are raised before any effect (a store that errs after persisting would break the property's own premise)." + TRUST,
+         "Store errors are raised before any effect, except the `err-late` batch (an update applied and then reported as failed: the error must still reach the caller). On the shared one-slot store (`concurrent-slot`) only the success clauses are judged." + TRUST,
          SIM + "seeded executor + store/user seams, systematic fault and cancellation sweep, history oracle", "DESIGN.md §6 C07"),
  "C08": ("exploration",
          "Seeded histories of 3-30 assertions over credentials with and without counters, with harness edits placing stored counters at 0, 1, 2^31-1, 2^31, 2^32-2, 2^32-1, fault-free (strict per-credential model) and under store errors/cancellations, on the reference store and on both shipped stores; thorough runs both build profiles (overflow checks on and off).",
